@@ -146,6 +146,33 @@ SimNext == /\ n < Depth /\ Acts # {}
                 /\ S' = StepOf(S, act) /\ lastAct' = act /\ n' = n + 1 /\ M' = M /\ hist' = hist
 SimSpec == Init /\ [][SimNext]_vars
 
+\* ---------------------------------------------------------------- the free grain: every interleaving of thread steps
+\* Environment actions and single thread steps alternate freely (no priority, no quiescence in between).  Checked with
+\* state invariants and with the monitors whose clauses do not depend on step boundaries (Inv07).
+FreeActs == Acts \cup {[a |-> "step", th |-> st.th, c |-> st.c] : st \in Steps(S)}
+\* (the exploration starts after `start` and an optional prefix of actions, both executed at the atomic grain)
+FreeInit == LET S1 == StepOf(InitState, StartAct)
+                R  == RunPrefix(S1, MonStep(MonInit, TraceStep(S1, StartAct)), PrefixActs)
+            IN /\ S = R.S /\ n = 0 /\ lastAct = StartAct /\ hist = <<StartAct>> \o PrefixActs /\ M = R.M
+FreeNext == /\ n < Depth
+            /\ \E act \in FreeActs :
+                 LET S1 == FreeStepOf(S, act) IN
+                 /\ S' = S1 /\ lastAct' = act /\ n' = n + 1 /\ hist' = Append(hist, act)
+                 /\ M' = MonStep(M, TraceStep(S1, act))
+FreeSpec == FreeInit /\ [][FreeNext]_vars
+FreeSimNext == /\ n < Depth /\ FreeActs # {}
+               /\ \E act \in {RandomElement(FreeActs)} :
+                    /\ S' = FreeStepOf(S, act) /\ lastAct' = act /\ n' = n + 1 /\ M' = M /\ hist' = hist
+FreeSimSpec == FreeInit /\ [][FreeSimNext]_vars
+\* nothing the node accepted for a connection is dropped by a clean close (pinned F18c violates this under some interleaving)
+NoOutputLost == S.overflow \/ S.lostOut = 0
+\* the connection tables agree with each other after every thread step
+TablesConsistent == S.overflow \/
+  /\ \A i \in 1..Len(S.peerSockets) : InSeq(S.peerSockets[i], S.connections) /\ S.conn[S.peerSockets[i]].sock = "open"
+  /\ \A i \in 1..Len(S.connections) : S.conn[S.connections[i]].used /\ S.conn[S.connections[i]].added
+  /\ \A p \in Peers : S.peer[p].conn # 0 => InSeq(S.peer[p].conn, S.connections)
+  /\ \A c \in S.halfReady : InSeq(c, S.connections)
+
 View == <<[S EXCEPT !.out = <<>>], M, n>>
 \* enumeration of every history of a small instance (spec -> code, exhaustive): histories are states, monitors idle
 EnumNext == /\ n < Depth
